@@ -84,7 +84,13 @@ def run(ctx) -> Result:
         pol = default_retry_policy_factory(min_backoff=mn, max_backoff=mx, multiplier=mult, max_exponent=me)
         prev = None
         for k in ns:
-            td = pol(k)
+            try:
+                td = pol(k)
+            except Exception as e:  # noqa: BLE001  -- "never overflows": raising on a valid input is a violation
+                res.bad("impl", "default retry policy raised on a valid input",
+                        case={"fn": "backoff", "min": mn, "max": mx, "mult": mult, "max_exp": me, "n": k},
+                        observed=f"!{type(e).__name__}: {e}", expected="a timedelta within [min_backoff, max_backoff]")
+                continue
             v = td_us(td)
             assert v % S == 0
             v //= S
@@ -98,7 +104,10 @@ def run(ctx) -> Result:
             res.note(("b", mn, mx, mult, me, k), sample=case if k == ns[0] else None)
         # adjacent retry numbers (monotone step by step)
         for k in range(1, 12):
-            a, b = td_us(pol(k)) // S, td_us(pol(k + 1)) // S
+            try:
+                a, b = td_us(pol(k)) // S, td_us(pol(k + 1)) // S
+            except Exception:  # noqa: BLE001  (reported above)
+                continue
             ask("pred", {"fn": "backoff-mono", "min": mn, "max": mx, "mult": mult, "max_exp": me, "n": k},
                 sx([A("c19.monoOk"), a, b]), "true")
 
@@ -107,7 +116,13 @@ def run(ctx) -> Result:
         CLOCK.reset(now)
         par = Parameters(timestamp=from_us(ts),
                          delay=DelayProperties(delay_until=from_us(du), defer_by=us_td(p)))
-        nxt = to_us(par.compute_next_execution_time)
+        try:
+            nxt = to_us(par.compute_next_execution_time)
+        except Exception as e:  # noqa: BLE001
+            res.bad("impl", "compute_next_execution_time raised on a valid input",
+                    case={"timestamp_us": ts, "now_us": now, "period_us": p, "delay_until_us": du},
+                    observed=f"!{type(e).__name__}: {e}", expected="a datetime")
+            continue
         case = {"fn": "compute_next_execution_time", "timestamp_us": ts, "now_us": now, "period_us": p, "delay_until_us": du}
         ask("eq", case, sx([A("computeNext"), params_sx(par), now]), sx(opt(nxt)))
         ask("pred", case, sx([A("c19.nextOk"), ts, now, p, opt(du), opt(nxt)]), "true")
